@@ -39,6 +39,34 @@ WORK = os.path.join(ROOT, ".work")
 REPO = os.environ.get("FAV_REPO", "/repo")
 EXPERIMENT = os.path.realpath(REPO) != "/repo"
 PY = "/venv/bin/python"
+LOCK_FILE = os.path.join(WORK, "lake.lock")
+if EXPERIMENT:
+    # an experiment on another tree (FAV_REPO=<worktree>) regenerates models of THAT tree: give it a private copy of the
+    # lake project so that it can neither disturb nor be disturbed by a check of /repo running at the same time
+    import atexit
+    import shutil
+
+    if os.environ.get("FAV_LEAN_DIR") and os.path.isdir(os.environ["FAV_LEAN_DIR"]):
+        LEAN_DIR = os.environ["FAV_LEAN_DIR"]
+    else:
+        _exp = os.path.join(WORK, "lean_exp", f"{os.getpid()}")
+        os.makedirs(os.path.dirname(_exp), exist_ok=True)
+        shutil.rmtree(_exp, ignore_errors=True)
+        subprocess.run(["cp", "-a", LEAN_DIR, _exp], check=True)
+        LEAN_DIR = _exp
+        os.environ["FAV_LEAN_DIR"] = _exp
+        _owner = os.getpid()
+
+        def _cleanup():
+            if os.getpid() == _owner:
+                shutil.rmtree(_exp, ignore_errors=True)
+                try:
+                    os.remove(_exp + ".lock")
+                except OSError:
+                    pass
+
+        atexit.register(_cleanup)
+    LOCK_FILE = LEAN_DIR + ".lock"
 ALLOWED_AXIOMS = {"propext", "Classical.choice", "Quot.sound"}
 FORBIDDEN = re.compile(r"\b(sorry|admit|native_decide|bv_decide|implemented_by)\b|^\s*axiom\s|\bunsafe\s|maxHeartbeats\s+0\b")
 
@@ -85,7 +113,7 @@ class Lean:
         os.makedirs(WORK, exist_ok=True)
 
     def _locked(self, cmd, timeout, stdin=None):
-        with open(os.path.join(WORK, "lake.lock"), "a") as lk:
+        with open(LOCK_FILE, "a") as lk:
             fcntl.flock(lk, fcntl.LOCK_EX)
             try:
                 return subprocess.run(cmd, cwd=LEAN_DIR, input=stdin, capture_output=True, text=True, timeout=timeout)
@@ -184,7 +212,7 @@ class Lean:
         """Run Drivers/<name>.lean on the given input lines; returns output lines."""
         data = "\n".join(lines) + "\n"
         # shared lock: drivers may run concurrently with each other but not while a build rewrites .olean files
-        with open(os.path.join(WORK, "lake.lock"), "a") as lk:
+        with open(LOCK_FILE, "a") as lk:
             fcntl.flock(lk, fcntl.LOCK_SH)
             r = subprocess.run(
                 ["lake", "env", "lean", "--run", f"Drivers/{name}.lean", *args],
@@ -390,7 +418,7 @@ def write_evidence(ctx, violations_count):
         f.write("\n")
 
 
-GEN_DIR = os.path.join(ROOT, "lean", "FAVerif", "Generated")
+GEN_DIR = os.path.join(LEAN_DIR, "FAVerif", "Generated")
 
 
 def _snapshot_generated():
